@@ -57,12 +57,78 @@ def refs_of(dump_entry):
     return out
 
 
+def foreign_sessions(rng, n):
+    """a strict CAS refuses to index a structure of a foreign type, a lenient one accepts it, through every kind of handle.
+    'Foreign' is decided the way `contains_type` documents it: the exact name is registered, or the name has no
+    namespace and is the short name of exactly one registered type."""
+    from harness.sessions import SB
+    out = []
+    for _ in range(n):
+        sb = SB()
+        ts = sb.ts_new()
+        own = rng.sample(["medical.Entity", "legal.Entity", "x.Unique", "x.y.Deep", "Plain", "q.Plain"], rng.randint(2, 5))
+        for t in own:
+            sb.create_type(ts, t, "uima.tcas.Annotation")
+        fts = sb.ts_new()
+        foreign = rng.sample(["Entity", "Unique", "Deep", "Plain", "Other", "z.Other", "medical.Entity", "y.Deep"], rng.randint(2, 5))
+        for t in foreign:
+            sb.create_type(fts, t, "uima.tcas.Annotation")
+        lenient = rng.random() < 0.35
+        h0 = sb.cas_new(ts, lenient=lenient, text="Hello world, hello again")
+        handles = [h0, sb.get_view(h0, "_InitialView"), sb.create_view(h0, "other")]
+        expect = []
+        k = 0
+        for t in foreign:
+            h = rng.choice(handles)
+            l = sb.fs_new(fts, t, {"begin": k, "end": k + 1})
+            k += 1
+            shorts = [o for o in own if o.rsplit(".", 1)[-1] == t]
+            known = t in own or ("." not in t and len(shorts) == 1)
+            i = sb.op(op="cas.add", h=h, fs=l)
+            expect.append((i, "ok" if (lenient or known) else "RuntimeError", t))
+        sel = [sb.op(op="cas.select_all", h=h) for h in handles]
+        n_ok = sum(1 for e in expect if e[1] == "ok")
+        out.append((sb.ops, expect, sel, n_ok, lenient))
+    return out
+
+
+def run_foreign(ctx, out, budget):
+    rng = ctx.rng(7)
+    sess = foreign_sessions(rng, 60 if budget == "quick" else 1500)
+    ops_list = [s_[0] for s_ in sess]
+    impl = sessions.run_impl_sessions(ops_list)
+    model = sessions.run_model_sessions(ctx.driver, ops_list)
+    for si, (ops, expect, sel, n_ok, lenient) in enumerate(sess):
+        io_ = impl[si]
+        sc = {"k": "session", "ops": ops, "foreign": True}
+        out.evaluations += 1
+        out.count("foreign-add:%s" % ("lenient" if lenient else "strict"))
+        for (i, want, t) in expect:
+            got = "ok" if "ok" in io_[i] else io_[i].get("err")
+            if got != want:
+                out.oracle_failures.append({"scenario": sc, "op_index": i, "what": ("a strict CAS indexed a structure of the foreign type %s" % t) if want != "ok"
+                                            else "adding a structure of type %s was refused" % t, "expected": want, "actual": io_[i]})
+                break
+        else:
+            total = sum(len(io_[j].get("ok") or []) for j in sel[:1]) + sum(len(io_[j].get("ok") or []) for j in sel[2:])
+            if total != n_ok:
+                out.oracle_failures.append({"scenario": sc, "what": "the views do not hold exactly the accepted structures", "expected": n_ok, "actual": total})
+        if any(w != "ok" for _i, w, _t in expect):
+            out.nontriv(("foreign", si))
+        if model is not None and model[si] is not None:
+            d = sessions.first_diff(io_, model[si], lambda i, x: sessions.sort_entries(x))
+            if d is not None:
+                out.disagreements.append({"scenario": sc, "op_index": d, "op": ops[d] if d < len(ops) else None,
+                                          "impl": io_[d] if d < len(io_) else None, "model": model[si][d] if d < len(model[si]) else None})
+
+
 def run(ctx, out, budget):
     out.rule = ("XMI documents written for the CASes of C01 x sets of user types (a type with all its subtypes, not referred to by any "
                 "remaining declaration) deleted from the type system such that no remaining structure references a dropped one x "
                 "lenient in {True, False}: strict load must raise type-not-found iff the document uses a deleted type; lenient load "
                 "must equal the strict load of the document with those elements and their view memberships removed; handles of every "
                 "view of the lenient CAS stay lenient. Non-trivial = distinct (document, deleted set) where at least one structure is dropped.")
+    run_foreign(ctx, out, budget)
     rng = ctx.rng(0)
     n = 120 if budget == "quick" else 2500
     cases = [casgen.CasGen(rng, n_types=rng.randint(2, 6), n_fs=rng.randint(2, 10), xmi_safe=True).build() for _ in range(n)]
@@ -166,6 +232,12 @@ def replay(ctx, payload):
     fl = payload.get("failure") or {}
     ops = fl["scenario"]["ops"]
     io = sessions.run_impl_sessions([ops])[0]
+    if fl["scenario"].get("foreign"):
+        i = fl.get("op_index")
+        if i is None:
+            return True
+        got = "ok" if "ok" in io[i] else io[i].get("err")
+        return got != fl.get("expected")
     loads = [i for i, o in enumerate(ops) if o["op"] == "xmi.load"]
     dumps = [i for i, o in enumerate(ops) if o["op"] == "cas.dump"]
     if len(dumps) >= 3:
